@@ -139,6 +139,7 @@ structure Cfg where
   replayCatchesPerEvent : Bool := true   -- a backtrace replay catches a sink exception per stored event, reports it and goes on (repaired, F26)
   flushInterval : Nat := 0               -- `sink_min_flush_interval` in ns; 0 = the idle pass always flushes
   flushBeforeLoggerErase : Bool := true  -- `_cleanup_invalidated_loggers` flushes the sinks before it erases loggers (repaired, F33)
+  fmtFaults : List (Nat × Nat) := []     -- fault assignment (statement id, kind): formatting that statement throws; kind 1 = a std::exception, 2 = anything else
   deriving Repr
 
 structure BSt where
@@ -197,6 +198,9 @@ def digits (n : Nat) : Nat := (toString n).length
 def payloadLen (id len : Nat) : Nat := max len (2 + digits id)
 
 def Cfg.batch (c : Cfg) : Nat := c.qcap * c.batchPct / 100
+
+/-- how formatting statement `id` fails: 0 = it does not, 1 = `std::exception`, 2 = a non-`std` exception -/
+def Cfg.fmtFault (c : Cfg) (id : Nat) : Nat := ((c.fmtFaults.find? (·.1 = id)).map (·.2)).getD 0
 
 /-! ### queue access under sequential consistency -/
 
